@@ -1,15 +1,26 @@
 //! C06 / C19: persistence.  One subject member per storage back end (in-memory and SQLite, same retention)
-//! follows the same traffic; random write / reload / crash points; a never-reloaded twin of the in-memory
-//! subject runs in lockstep; late application messages of every age are delivered.
+//! follows the same traffic; random write / reload / crash points; a never-reloaded twin of EACH subject runs in
+//! lockstep for the whole scenario; late application messages of every age are delivered.
+//! The subjects also take proposer and committer turns (own Update proposal, own pending commit that either wins or is
+//! superseded by P's), so that the written / reloaded state carries a pending commit, cached proposals and a pending own
+//! update.  A reload goes through a FRESH client object (SQLite: a new connection to the same database file).
+//! After a crash (reload without write) that lost no own operation the restored group is fed the lost traffic again and
+//! must catch up with its twin.
 //! Oracles: loaded state == written state (every component), crash returns the last write, twin lockstep,
 //! both back ends expose the same stored history and the same verdicts, late messages readable exactly
 //! inside the retention window, a late message whose sender leaf was vacated / reused / re-identified is
-//! rejected.  `repo` rows replay the repository operations on the Lean model `Repo`.
+//! rejected (by P and by both subjects).  `repo` rows replay the repository operations on the Lean model `Repo`.
 use crate::c15::{new_client, Mk};
+#[allow(unused_imports)]
+use crate::providers::StoreBackend;
 use crate::util::{Opts, Rng, QA};
 use crate::world::*;
 use mls_rs::client_builder::MlsConfig;
-use mls_rs::group::{CommitEffect, ReceivedMessage};
+use mls_rs::crypto::SignatureSecretKey;
+use mls_rs::error::MlsError;
+use mls_rs::group::proposal::Proposal;
+use mls_rs::group::{CommitEffect, ReceivedMessage, Sender};
+use mls_rs::identity::SigningIdentity;
 use mls_rs_core::group::GroupStateStorage;
 use mls_rs::{Group, MlsMessage};
 use std::collections::{BTreeMap, BTreeSet};
@@ -24,7 +35,9 @@ struct Out {
     samples: Vec<String>,
 }
 
-fn comps_no_repo<C: MlsConfig>(g: &Group<C>) -> Vec<(String, Vec<u8>)> {
+type Comps = Vec<(String, Vec<u8>)>;
+
+fn comps_no_repo<C: MlsConfig>(g: &Group<C>) -> Comps {
     g.verif_components().into_iter().filter(|(k, _)| !k.starts_with("repo_")).collect()
 }
 
@@ -40,13 +53,553 @@ fn list(v: &[u64]) -> String {
     }
 }
 
+/// the database files are re-opened by path at every reload ("new process"): the directory is private to this run, so that a
+/// concurrent run cleaning up its own scratch directory cannot remove them
+fn scratch_dir() -> String {
+    format!("/tmp/vharness-scratch-c06-{}", std::process::id())
+}
+
+fn tag_of(i: usize) -> &'static str {
+    if i == 1 {
+        "mem"
+    } else {
+        "sql"
+    }
+}
+
+/// run an operation on a group that is not a member of the world (twin, clone, freshly loaded group), catching panics
+fn guard<T>(f: impl FnOnce() -> Result<T, MlsError>) -> (Res, Option<T>) {
+    match std::panic::catch_unwind(std::panic::AssertUnwindSafe(f)) {
+        Ok(Ok(t)) => (Res::Ok, Some(t)),
+        Ok(Err(e)) => (Res::Err(err_class(&e)), None),
+        Err(p) => {
+            let s = if let Some(s) = p.downcast_ref::<&str>() {
+                s.to_string()
+            } else if let Some(s) = p.downcast_ref::<String>() {
+                s.clone()
+            } else {
+                "panic".into()
+            };
+            (Res::Panic(s), None)
+        }
+    }
+}
+
+/// `c15::new_client`, keeping the signing identity and key so that a fresh client object ("new process") can be built later
+fn new_client_keep<C: MlsConfig>(w: &mut World<C>, mk: Mk<C>, name: &str, sqlite: bool, retention: usize) -> (usize, SigningIdentity, SignatureSecretKey) {
+    let mut s = Setup::new(name);
+    s.sqlite = sqlite;
+    s.retention = retention;
+    let h = handles(&s, &w.crypto_log, &w.scratch);
+    let (id, sk) = make_identity(&s.name, s.suite);
+    let client = mk(&s, &h, id.clone(), sk.clone());
+    w.members.push(Member { identity: s.name.as_bytes().to_vec(), setup: s, h, client, group: None, ghosts: vec![], wrote: false });
+    (w.members.len() - 1, id, sk)
+}
+
+/// the handles of a "new process" of the same member: for SQLite a NEW engine / connection on the same database file, for
+/// the in-memory provider the same shared map (it lives in the process); everything else is shared
+fn reopened_handles(h: &Handles, retention: usize) -> (Handles, &'static str) {
+    #[cfg(feature = "sqlite")]
+    if let Some(p) = &h.sqlite_path {
+        use mls_rs_provider_sqlite::{connection_strategy::FileConnectionStrategy, SqLiteDataStorageEngine};
+        if let Ok(st) = SqLiteDataStorageEngine::new(FileConnectionStrategy::new(p)).and_then(|e| e.group_state_storage()) {
+            let mut h2 = h.clone();
+            h2.store.backend = StoreBackend::Sql(st.with_max_epoch_retention(retention as u64));
+            return (h2, "new-connection");
+        }
+        return (h.clone(), "new-connection-failed");
+    }
+    let _ = retention;
+    (h.clone(), "fresh-client")
+}
+
+/// applied / unused proposals of a commit effect, order-insensitive
+fn effect_summary(e: &CommitEffect) -> String {
+    match e {
+        CommitEffect::NewEpoch(n) => {
+            let mut a: Vec<String> = n.applied_proposals.iter().map(|p| format!("{}@{:?}", proposal_kind(&p.proposal), p.sender)).collect();
+            let mut u: Vec<String> = n.unused_proposals.iter().map(|p| format!("{}@{:?}", proposal_kind(&p.proposal), p.sender)).collect();
+            a.sort();
+            u.sort();
+            format!("applied=[{}] unused=[{}]", a.join(","), u.join(","))
+        }
+        CommitEffect::Removed { .. } => "removed".into(),
+        CommitEffect::ReInit(_) => "reinit".into(),
+    }
+}
+
+/// what a commit built NOW on a clone of `g` would do with the cached proposals (the group itself is not touched)
+fn commit_summary<C: MlsConfig>(g: &Group<C>) -> String {
+    let mut c = g.clone();
+    c.clear_pending_commit();
+    let (r, o) = guard(|| {
+        let o = c.commit_builder().build()?;
+        let d = c.apply_pending_commit()?;
+        Ok((o.unused_proposals.len(), d))
+    });
+    match o {
+        Some((n, d)) => format!("ok unused_at_build={n} {}", effect_summary(&d.effect)),
+        None => r.s(),
+    }
+}
+
+/// is the prior epoch `e` available to subject `i` (the lookup order of `GroupStateRepository::get_epoch_mut`: pending inserts
+/// from the first pending id on, otherwise the storage -- the read-through cache only holds stored records)
+fn retained<C: MlsConfig>(w: &World<C>, i: usize, e: u64) -> bool {
+    let g = w.group(i);
+    let ins: Vec<u64> = g
+        .verif_components()
+        .iter()
+        .find(|(k, _)| k == "repo_pending_inserts")
+        .map(|(_, v)| v.chunks(8).filter(|c| c.len() == 8).map(|c| u64::from_be_bytes(c.try_into().unwrap())).collect())
+        .unwrap_or_default();
+    if let Some(&min) = ins.first() {
+        if e >= min {
+            return ins.contains(&e);
+        }
+    }
+    w.members[i].h.store.peek_epoch(g.group_id(), e).is_some()
+}
+
+#[derive(Clone, Copy, PartialEq)]
+enum Ev {
+    Write,
+    Reload,
+    Crash,
+}
+
+/// what subject i held at its last successful write
+struct Written {
+    comps: Comps,
+    pending_commit: bool,
+    cached: usize,
+    pending_update: bool,
+    epoch: u64,
+}
+
+/// one delivery to a subject since its last write (fed again to the group restored after a crash)
+#[derive(Clone)]
+struct Logged {
+    msg: MlsMessage,
+    kind: &'static str,
+    epoch: u64,
+    ok: bool,
+}
+
+/// the world plus everything the persistence events of the two subjects need
+struct Sc<'a, C: MlsConfig> {
+    w: World<C>,
+    mk: Mk<'a, C>,
+    out: &'a mut Out,
+    qa_mem: &'a mut QA,
+    qa_sql: &'a mut QA,
+    ret: usize,
+    step: u64,
+    /// never written, never reloaded; fed exactly the messages of its subject; after an own (randomised) operation of the
+    /// subject -- proposal, commit -- it is the clone of the subject taken right after that operation (lockstep checked before)
+    twin: BTreeMap<usize, Group<C>>,
+    written: BTreeMap<usize, Written>,
+    log: BTreeMap<usize, Vec<Logged>>,
+    /// the subject made an own operation (proposal sent / commit built) that it has not written yet: a crash loses it
+    dirty: BTreeSet<usize>,
+    ident: BTreeMap<usize, (SigningIdentity, SignatureSecretKey)>,
+    /// late messages a subject accepted: (subject, message, epoch, accepted after the subject's last write)
+    accepted_lates: Vec<(usize, MlsMessage, u64, bool)>,
+    diverged: bool,
+    reloaded: BTreeSet<usize>,
+    /// the subject was reloaded / restored while it held a pending own update (cleared at the next epoch)
+    pu_reloaded: BTreeSet<usize>,
+    /// the subject was reloaded / restored while it held a pending commit (cleared at the next epoch)
+    pc_reloaded: BTreeSet<usize>,
+}
+
+impl<'a, C: MlsConfig> Sc<'a, C> {
+    fn qa(&mut self, i: usize) -> &mut QA {
+        if i == 1 {
+            &mut *self.qa_mem
+        } else {
+            &mut *self.qa_sql
+        }
+    }
+
+    fn fail(&mut self, prop: &str, msg: String) {
+        let s = self.step;
+        self.out.fails.push((prop.into(), format!("step {s} (ret {}): {msg}", self.ret)));
+    }
+
+    fn cover(&mut self, k: String) {
+        self.out.cover.insert(k);
+    }
+
+    /// the subject and its twin agree in every component outside the repository bookkeeping; first divergence only
+    fn lockstep(&mut self, i: usize, at: &str) {
+        if self.diverged || self.w.members[i].group.is_none() {
+            return;
+        }
+        let Some(t) = self.twin.get(&i) else { return };
+        let ch = World::<C>::changed(&comps_no_repo(self.w.group(i)), &comps_no_repo(t));
+        if !ch.is_empty() {
+            self.diverged = true;
+            let (ea, eb) = (self.w.group(i).current_epoch(), t.current_epoch());
+            let state = if self.reloaded.contains(&i) { "reloaded before" } else { "never reloaded" };
+            self.fail("C06", format!("{}: subject ({state}, epoch {ea}) and its never-reloaded twin (epoch {eb}) differ {at} in {ch:?}", tag_of(i)));
+        }
+    }
+
+    /// deliver one message to subject i and to its twin.  `late`: a message of a prior epoch (or a replay): not part of the
+    /// traffic a restored group is fed again, and the twin (which keeps every epoch) may answer differently
+    fn deliver(&mut self, i: usize, m: &MlsMessage, kind: &'static str, late: bool) -> (Res, Option<ReceivedMessage>) {
+        let epoch = self.w.group(i).current_epoch();
+        let mm = m.clone();
+        let (r, o) = self.w.with_group(i, |g| g.process_incoming_message(mm));
+        let mut twin_res = None;
+        if let Some(t) = self.twin.get_mut(&i) {
+            let mm = m.clone();
+            twin_res = Some(guard(|| t.process_incoming_message(mm)).0);
+        }
+        if let Some(rt) = twin_res {
+            if !late && rt.ok() != r.ok() && !self.diverged {
+                self.diverged = true;
+                self.fail("C06", format!("{}: subject answers {} to a {kind} of epoch {epoch}, its never-reloaded twin answers {}", tag_of(i), r.s(), rt.s()));
+            }
+        }
+        if !late {
+            self.log.entry(i).or_default().push(Logged { msg: m.clone(), kind, epoch, ok: r.ok() });
+        }
+        (r, o)
+    }
+
+    /// a message from `from` to every other member (subjects through `deliver`); false = somebody rejected it (reported)
+    fn broadcast(&mut self, m: &MlsMessage, kind: &'static str, from: usize) -> bool {
+        for j in 0..self.w.members.len() {
+            if j == from || self.w.members[j].group.is_none() {
+                continue;
+            }
+            let leaf = self.w.group(j).current_member_index();
+            let (r, o) = if j == 1 || j == 2 {
+                self.deliver(j, m, kind, false)
+            } else {
+                let mm = m.clone();
+                self.w.with_group(j, |g| g.process_incoming_message(mm))
+            };
+            if !r.ok() {
+                let note = if j == 1 || j == 2 {
+                    let g = self.w.group(j);
+                    let pu = g.verif_components().iter().any(|(k, v)| k == "pending_updates" && !v.is_empty());
+                    format!(
+                        " ({} subject; pending commit {}, cached proposals {}, pending own update {}, reloaded with it {}, reloaded before {})",
+                        tag_of(j),
+                        g.has_pending_commit(),
+                        g.get_cached_proposals().len(),
+                        pu,
+                        self.pu_reloaded.contains(&j),
+                        self.reloaded.contains(&j)
+                    )
+                } else {
+                    String::new()
+                };
+                let from_name = self.w.members[from].setup.name.clone();
+                self.fail("C06", format!("member {j} rejects the {kind} of {from_name}: {}{note}", r.s()));
+                return false;
+            }
+            if let Some(ReceivedMessage::Commit(d)) = o {
+                if let CommitEffect::NewEpoch(n) = &d.effect {
+                    let own_update = n.applied_proposals.iter().any(|p| matches!(p.proposal, Proposal::Update(_)) && p.sender == Sender::Member(leaf));
+                    if own_update && (j == 1 || j == 2) {
+                        self.cover(format!("own-update-applied:{}", tag_of(j)));
+                        if self.pu_reloaded.contains(&j) {
+                            self.cover("reload:pending-update:commit-applied".into());
+                            self.cover(format!("reload:{}:pending-update:commit-applied", tag_of(j)));
+                        }
+                    }
+                }
+                if matches!(d.effect, CommitEffect::Removed { .. }) {
+                    self.w.members[j].group = None;
+                }
+            }
+        }
+        true
+    }
+
+    /// an own, randomised operation of subject x (proposal, commit): lockstep is checked before, the twin becomes the clone
+    /// of the subject right after the operation
+    fn own_op<T>(&mut self, x: usize, what: &str, f: impl FnOnce(&mut Group<C>) -> Result<T, MlsError>) -> Option<T> {
+        self.lockstep(x, &format!("before the subject is to {what}"));
+        let (r, o) = self.w.with_group(x, f);
+        if !r.ok() {
+            let st = if self.reloaded.contains(&x) { "reloaded before" } else { "never reloaded" };
+            self.fail("C06", format!("{}: subject ({st}) cannot {what}: {}", tag_of(x), r.s()));
+            return None;
+        }
+        self.twin.insert(x, self.w.group(x).clone());
+        self.dirty.insert(x);
+        o
+    }
+
+    fn note_written(&mut self, i: usize, point: &str) {
+        let g = self.w.group(i);
+        let comps = g.verif_components();
+        let info = Written {
+            pending_commit: g.has_pending_commit(),
+            cached: g.get_cached_proposals().len(),
+            pending_update: comps.iter().any(|(k, v)| k == "pending_updates" && !v.is_empty()),
+            epoch: g.current_epoch(),
+            comps,
+        };
+        let tag = tag_of(i);
+        if info.pending_commit {
+            self.cover(format!("write:{tag}:pending-commit"));
+        }
+        if info.cached > 0 {
+            self.cover(format!("write:{tag}:cached-proposals"));
+        }
+        if info.pending_update {
+            self.cover(format!("write:{tag}:pending-update"));
+        }
+        self.cover(format!("persist-point:{point}"));
+        self.written.insert(i, info);
+        self.log.remove(&i);
+        self.dirty.remove(&i);
+        for a in self.accepted_lates.iter_mut() {
+            if a.0 == i {
+                a.3 = false;
+            }
+        }
+    }
+
+    /// the member's "new process": a fresh client object on re-opened storage handles
+    fn fresh_client(&mut self, i: usize) {
+        let (h2, how) = reopened_handles(&self.w.members[i].h, self.w.members[i].setup.retention);
+        let (id, sk) = self.ident[&i].clone();
+        let client = (self.mk)(&self.w.members[i].setup, &h2, id, sk);
+        self.w.members[i].client = client;
+        self.w.members[i].h = h2;
+        self.cover(format!("new-process:{}:{how}", tag_of(i)));
+        if how == "new-connection-failed" {
+            self.fail("C06", format!("{}: cannot open a second connection to the database file", tag_of(i)));
+        }
+    }
+
+    /// one persistence event of subject i
+    fn persist(&mut self, i: usize, ev: Ev, point: &str) {
+        let tag = tag_of(i);
+        if self.w.members[i].group.is_none() {
+            return;
+        }
+        if ev == Ev::Write {
+            let (r, _) = self.w.with_group(i, |g| g.write_to_storage());
+            self.out.cases += 1;
+            if !r.ok() {
+                self.fail("C06", format!("{tag}: write_to_storage fails ({point}): {}", r.s()));
+                return;
+            }
+            self.note_written(i, point);
+            self.w.members[i].wrote = true;
+            let ids = list(&stored_ids(&self.w, i));
+            self.qa(i).put("repo.write", "ok");
+            self.qa(i).put("repo.ids", &ids);
+            return;
+        }
+        // reload: write first, or crash (drop the unwritten state)
+        let crash = ev == Ev::Crash;
+        if !crash {
+            let (r, _) = self.w.with_group(i, |g| g.write_to_storage());
+            if !r.ok() {
+                self.fail("C06", format!("{tag}: write before reload fails ({point}): {}", r.s()));
+                return;
+            }
+            self.note_written(i, point);
+            self.qa(i).put("repo.write", "ok");
+        }
+        let gid = self.w.group(i).group_id().to_vec();
+        self.fresh_client(i);
+        let g = match self.w.members[i].client.load_group(&gid) {
+            Ok(g) => g,
+            Err(e) => {
+                self.fail("C06", format!("{tag}: cannot load the written group ({point}): {}", err_class(&e)));
+                return;
+            }
+        };
+        let how = if crash { "a crash" } else { "a write" };
+        let loaded: Comps = g.verif_components();
+        let (w_pc, w_cached, w_pu, w_epoch) = {
+            let x = &self.written[&i];
+            (x.pending_commit, x.cached, x.pending_update, x.epoch)
+        };
+        let ch: Vec<String> = World::<C>::changed(&self.written[&i].comps, &loaded)
+            .into_iter()
+            .filter(|c| c != "repo_pending_kp_removal" && c != "repo_pending_updates" && c != "repo_pending_inserts")
+            .collect();
+        if !ch.is_empty() {
+            self.fail("C06", format!("{tag}: group loaded after {how} ({point}) differs from the written one in {ch:?}"));
+        }
+        if g.has_pending_commit() != w_pc {
+            self.fail("C06", format!("{tag}: group loaded after {how} ({point}): has_pending_commit() is {}, it was {w_pc} when written", g.has_pending_commit()));
+        }
+        if g.get_cached_proposals().len() != w_cached {
+            self.fail("C06", format!("{tag}: group loaded after {how} ({point}) holds {} cached proposals, {w_cached} were written", g.get_cached_proposals().len()));
+        }
+        let kind = if crash { "crash" } else { "reload" };
+        if w_pc {
+            self.cover(format!("{kind}:pending-commit"));
+            self.cover(format!("{kind}:{tag}:pending-commit"));
+        }
+        if w_cached > 0 {
+            self.cover(format!("{kind}:cached-proposals"));
+            self.cover(format!("{kind}:{tag}:cached-proposals"));
+        }
+        if w_pu {
+            self.cover(format!("{kind}:pending-update"));
+            self.cover(format!("{kind}:{tag}:pending-update"));
+        }
+        self.cover(format!("persist-point:{point}:{kind}"));
+        if crash {
+            self.out.crashes += 1;
+            if self.dirty.contains(&i) {
+                // an own proposal / commit of the subject was never written: the restored group cannot follow the traffic that
+                // builds on it (the others hold the proposal); as before, the live group keeps running
+                self.cover(format!("crash:{tag}:own-op-lost:live-continues"));
+                return;
+            }
+            // the subject lost its unwritten epochs and messages: the restored group is fed the same traffic again and has to
+            // end in the state of the twin
+            let mut g = g;
+            let entries = self.log.get(&i).cloned().unwrap_or_default();
+            let live_epoch = self.w.group(i).current_epoch();
+            let lost = live_epoch - g.current_epoch();
+            self.qa(i).put("repo.reload", "ok");
+            for l in &entries {
+                let e0 = g.current_epoch();
+                let mm = l.msg.clone();
+                let (r, _) = guard(|| g.process_incoming_message(mm));
+                if r.ok() != l.ok {
+                    self.fail(
+                        "C06",
+                        format!(
+                            "{tag}: crash catch-up ({point}): the group restored from the last write (epoch {w_epoch}) answers {} to the re-delivered {} of epoch {} (now at epoch {e0}); the live group had answered {}",
+                            r.s(),
+                            l.kind,
+                            l.epoch,
+                            if l.ok { "ok" } else { "an error" }
+                        ),
+                    );
+                }
+                if l.kind == "commit" {
+                    match &r {
+                        Res::Ok => self.qa(i).put(&format!("repo.ins {e0}"), "ok"),
+                        Res::Err(e) if e == "InvalidEpoch" => self.qa(i).put(&format!("repo.ins {e0}"), "err"),
+                        _ => {}
+                    }
+                }
+            }
+            if g.current_epoch() != live_epoch {
+                self.fail("C06", format!("{tag}: crash catch-up ({point}): restored from epoch {w_epoch}, after the re-delivery of {} messages it is at epoch {}, the live group was at {live_epoch}", entries.len(), g.current_epoch()));
+            }
+            if let Some(t) = self.twin.get(&i) {
+                let ch = World::<C>::changed(&comps_no_repo(&g), &comps_no_repo(t));
+                if !ch.is_empty() && !self.diverged {
+                    self.diverged = true;
+                    self.fail("C06", format!("{tag}: crash catch-up ({point}): restored from epoch {w_epoch} and fed the {} lost messages ({lost} epochs) again, the group differs from its never-reloaded twin in {ch:?}", entries.len()));
+                }
+            }
+            self.w.members[i].group = Some(g);
+            self.reloaded.insert(i);
+            self.accepted_lates.retain(|a| a.0 != i || !a.3);
+            if lost > 0 {
+                self.cover("crash:catch-up".into());
+                self.cover(format!("crash:{tag}:catch-up:lost-epochs={}", lost.min(3)));
+            } else {
+                self.cover(format!("crash:{tag}:nothing-lost:messages={}", entries.len().min(3)));
+            }
+            if w_pu {
+                self.pu_reloaded.insert(i);
+            }
+            if w_pc {
+                self.pc_reloaded.insert(i);
+            }
+            return;
+        }
+        self.out.reloads += 1;
+        self.w.members[i].group = Some(g);
+        self.qa(i).put("repo.reload", "ok");
+        self.reloaded.insert(i);
+        if !self.diverged {
+            if let Some(t) = self.twin.get(&i) {
+                let ch = World::<C>::changed(&comps_no_repo(self.w.group(i)), &comps_no_repo(t));
+                if !ch.is_empty() {
+                    self.diverged = true;
+                    self.fail("C06", format!("{tag}: reloaded member ({point}) and its never-reloaded twin differ in {ch:?}"));
+                }
+            }
+        }
+        // the pending commit survives: same flag, and applying it gives the epoch the twin gets
+        if w_pc {
+            self.pc_reloaded.insert(i);
+            if let Some(t) = self.twin.get(&i) {
+                let mut a = self.w.group(i).clone();
+                let mut b = t.clone();
+                let (ra, _) = guard(|| a.apply_pending_commit().map(|_| ()));
+                let (rb, _) = guard(|| b.apply_pending_commit().map(|_| ()));
+                if !ra.ok() || !rb.ok() {
+                    self.fail("C06", format!("{tag}: apply_pending_commit on the group reloaded with a pending commit ({point}): {}, on the never-reloaded twin: {}", ra.s(), rb.s()));
+                } else {
+                    let aa = a.epoch_authenticator().map(|s| s.as_bytes().to_vec()).ok();
+                    let ab = b.epoch_authenticator().map(|s| s.as_bytes().to_vec()).ok();
+                    if aa.is_none() || aa != ab {
+                        self.fail("C06", format!("{tag}: the pending commit applied by the reloaded group ({point}) gives epoch {} with another epoch authenticator than the never-reloaded twin applying the same pending commit (epoch {})", a.current_epoch(), b.current_epoch()));
+                    }
+                    let ch = World::<C>::changed(&comps_no_repo(&a), &comps_no_repo(&b));
+                    if !ch.is_empty() {
+                        self.fail("C06", format!("{tag}: after applying the pending commit, the reloaded group ({point}) and the never-reloaded twin differ in {ch:?}"));
+                    }
+                    self.cover(format!("reload:{tag}:pending-commit:applies-as-twin"));
+                }
+            }
+        }
+        // the cached proposals survive: a commit built now uses them exactly as the twin's would
+        if w_cached > 0 {
+            if let Some(t) = self.twin.get(&i) {
+                let sa = commit_summary(self.w.group(i));
+                let sb = commit_summary(t);
+                if sa != sb {
+                    self.fail("C06", format!("{tag}: a commit built by the group reloaded with {w_cached} cached proposals ({point}): {sa}; by the never-reloaded twin: {sb}"));
+                }
+                self.cover(format!("reload:{tag}:cached-proposals:commit-{}", if sa.starts_with("ok") { "ok" } else { "err" }));
+            }
+        }
+        if w_pu {
+            self.pu_reloaded.insert(i);
+        }
+    }
+
+    /// random persistence events of both subjects at an intermediate point of a round
+    fn persist_point(&mut self, rng: &mut Rng, point: &str, focus: Option<usize>) {
+        for i in [1usize, 2] {
+            let fire = if Some(i) == focus { rng.chance(3, 4) } else { rng.chance(1, 4) };
+            if !fire {
+                continue;
+            }
+            let ev = rng.below(6);
+            let e = if !self.written.contains_key(&i) || ev < 2 {
+                Ev::Write
+            } else if ev < 4 {
+                Ev::Reload
+            } else {
+                Ev::Crash
+            };
+            self.persist(i, e, point);
+        }
+    }
+}
+
 /// members: 0 = P (driver, commits), 1 = M (in-memory subject), 2 = S (SQLite subject), 3 = Q (sender whose leaf changes)
 fn scenario<C: MlsConfig>(rng: &mut Rng, mk: Mk<C>, out: &mut Out, qa_mem: &mut QA, qa_sql: &mut QA, qa_side: &mut [QA; 2]) {
-    let mut w: World<C> = new_world(Default::default(), "/tmp/vharness-scratch-c06");
+    let mut w: World<C> = new_world(Default::default(), &scratch_dir());
     let ret = *rng.pick(&[1usize, 2, 3, 5]);
     new_client(&mut w, mk, "P", false, 3);
-    new_client(&mut w, mk, "M", false, ret);
-    new_client(&mut w, mk, "S", true, ret);
+    let (_, m_id, m_sk) = new_client_keep(&mut w, mk, "M", false, ret);
+    let (_, s_id, s_sk) = new_client_keep(&mut w, mk, "S", true, ret);
     new_client(&mut w, mk, "Q", false, 3);
     let g = w.members[0].client.create_group(Default::default(), Default::default(), None).unwrap();
     w.members[0].group = Some(g);
@@ -78,7 +631,6 @@ fn scenario<C: MlsConfig>(rng: &mut Rng, mk: Mk<C>, out: &mut Out, qa_mem: &mut 
     out.cover.insert(format!("ret={ret}"));
     qa_mem.put(&format!("repo.new mem {ret}"), "ok");
     qa_sql.put(&format!("repo.new sql {ret}"), "ok");
-    let mut twin: Group<C> = w.group(1).clone();
     // each subject also runs a second, single-member group on the SAME storage, advanced and written in lockstep, so that both
     // groups hold prior epochs with the same epoch ids; whatever the subject writes for the main group must leave the stored
     // records of the side group untouched
@@ -102,133 +654,223 @@ fn scenario<C: MlsConfig>(rng: &mut Rng, mk: Mk<C>, out: &mut Out, qa_mem: &mut 
             side.insert(i, g);
         }
     }
-    // written[i] = components of subject i at its last successful write
-    let mut written: BTreeMap<usize, Vec<(String, Vec<u8>)>> = BTreeMap::new();
+    // one never-written, never-reloaded twin per subject
+    let mut twin: BTreeMap<usize, Group<C>> = BTreeMap::new();
+    twin.insert(1, w.group(1).clone());
+    twin.insert(2, w.group(2).clone());
+    let mut ident = BTreeMap::new();
+    ident.insert(1usize, (m_id, m_sk));
+    ident.insert(2usize, (s_id, s_sk));
+    let mut sc: Sc<C> = Sc {
+        w,
+        mk,
+        out,
+        qa_mem,
+        qa_sql,
+        ret,
+        step: 0,
+        twin,
+        written: BTreeMap::new(),
+        log: BTreeMap::new(),
+        dirty: BTreeSet::new(),
+        ident,
+        accepted_lates: vec![],
+        diverged: false,
+        reloaded: BTreeSet::new(),
+        pu_reloaded: BTreeSet::new(),
+        pc_reloaded: BTreeSet::new(),
+    };
     // unused late messages per epoch from P (and from Q for the sender-leaf cases)
     let mut pool: BTreeMap<u64, Vec<MlsMessage>> = BTreeMap::new();
-    // late messages a subject accepted: (subject, message, epoch)
-    let mut accepted_lates: Vec<(usize, MlsMessage, u64)> = vec![];
     let mut q_pool: Vec<(u64, MlsMessage)> = vec![];
     let mut q_state = "member"; // member | removed | replaced | reidentified
     let steps = rng.range(8, 22);
-    for _step in 0..steps {
-        let epoch = w.group(0).current_epoch();
+    for step in 0..steps {
+        sc.step = step;
+        let epoch = sc.w.group(0).current_epoch();
         // P (and Q while a member) pre-send application messages of this epoch for later
         for _ in 0..3 {
-            let (_, m) = w.with_group(0, |g| g.encrypt_application_message(b"late", vec![]));
+            let (_, m) = sc.w.with_group(0, |g| g.encrypt_application_message(b"late", vec![]));
             if let Some(m) = m {
                 pool.entry(epoch).or_default().push(m);
             }
         }
         if q_state == "member" || q_state == "rekeyed" {
-            if w.members[3].group.is_some() {
-                let (_, m) = w.with_group(3, |g| g.encrypt_application_message(b"from-q", vec![]));
+            if sc.w.members[3].group.is_some() {
+                let (_, m) = sc.w.with_group(3, |g| g.encrypt_application_message(b"from-q", vec![]));
                 if let Some(m) = m {
                     q_pool.push((epoch, m));
                 }
             }
         }
-        // ---- advance the epoch: P commits (sometimes touching Q's leaf) ------------------------------------------
         let roll = rng.below(10);
-        let q_leaf = w.members[3].group.as_ref().map(|g| g.current_member_index());
-        let mut newcomer_kp = None;
-        let commit = if roll == 0 && q_state == "member" && q_leaf.is_some() {
-            q_state = "removed";
-            let ql = q_leaf.unwrap();
-            w.with_group(0, |g| g.commit_builder().remove_member(ql)?.build())
-        } else if roll == 1 && q_state == "removed" {
-            // somebody else takes the vacated leaf
-            let z = new_client(&mut w, mk, &format!("Z{epoch}"), false, 3);
-            let kp = w.members[z].client.generate_key_package_message(Default::default(), Default::default(), None).unwrap();
-            newcomer_kp = Some(z);
-            q_state = "replaced";
-            w.with_group(0, |g| g.commit_builder().add_member(kp)?.build())
-        } else {
-            w.with_group(0, |g| g.commit(vec![]))
-        };
-        let Some(co) = commit.1 else {
-            out.fails.push(("C06".into(), format!("commit failed: {}", commit.0.s())));
-            return;
-        };
-        w.with_group(0, |g| g.apply_pending_commit());
-        let cm = co.commit_message.clone();
-        for i in 1..w.members.len() {
-            if w.members[i].group.is_none() {
-                continue;
-            }
-            let m = cm.clone();
-            let (r, o) = w.with_group(i, |g| g.process_incoming_message(m));
-            if !r.ok() {
-                out.fails.push(("C06".into(), format!("member {i} rejects the commit: {}", r.s())));
+        let q_leaf = sc.w.members[3].group.as_ref().map(|g| g.current_member_index());
+        // P's commit of this round touches Q's leaf (removal / the vacated leaf is taken): no competing committer, Q does not propose
+        let special = (roll == 0 && q_state == "member" && q_leaf.is_some()) || (roll == 1 && q_state == "removed");
+        // ---- proposals of this round: a subject's own Update (everybody caches it, the subject holds a pending own update), and
+        // an Update of P or Q (the subjects cache it); persistence events in between ------------------------------------------
+        if rng.chance(2, 5) {
+            let x = 1 + rng.below(2) as usize;
+            let Some(pm) = sc.own_op(x, "send an Update proposal", |g| g.propose_update(vec![])) else { return };
+            sc.cover(format!("subject-proposal:{}", tag_of(x)));
+            if !sc.broadcast(&pm, "proposal", x) {
                 return;
             }
-            if let Some(ReceivedMessage::Commit(d)) = o {
-                if matches!(d.effect, CommitEffect::Removed { .. }) {
-                    w.members[i].group = None;
-                }
+            sc.persist_point(rng, "own-proposal-sent", Some(x));
+        }
+        if rng.chance(2, 5) {
+            let pr = if !special && sc.w.members[3].group.is_some() && rng.chance(1, 2) { 3 } else { 0 };
+            let (r, pm) = sc.w.with_group(pr, |g| g.propose_update(vec![]));
+            let Some(pm) = pm else {
+                sc.fail("C06", format!("member {pr} cannot send an Update proposal: {}", r.s()));
+                return;
+            };
+            if !sc.broadcast(&pm, "proposal", pr) {
+                return;
+            }
+            sc.cover(format!("others-proposal:from={}", if pr == 0 { "P" } else { "Q" }));
+            sc.persist_point(rng, "proposals-cached", None);
+        }
+        // ---- advance the epoch: a subject builds a commit without applying it (and then either P's competing commit wins or the
+        // subject's commit goes out), or P commits (sometimes touching Q's leaf) ---------------------------------------------
+        let committer = if !special && rng.chance(1, 3) { Some(1 + rng.below(2) as usize) } else { None };
+        let mut own: Option<(usize, MlsMessage)> = None;
+        if let Some(y) = committer {
+            let Some(co) = sc.own_op(y, "build a commit", |g| g.commit(vec![])) else { return };
+            sc.cover(format!("subject-commit:{}:built", tag_of(y)));
+            sc.persist_point(rng, "pending-commit", Some(y));
+            sc.persist_point(rng, "pending-commit-later", Some(y));
+            if rng.chance(1, 2) {
+                own = Some((y, co.commit_message));
             }
         }
-        if let Some(z) = newcomer_kp {
-            for wm in &co.welcome_messages {
-                if let Ok((g, _)) = w.members[z].client.join_group(None, wm, None) {
-                    w.members[z].group = Some(g);
-                    break;
+        let mut newcomer_kp = None;
+        if let Some((y, cm)) = &own {
+            let y = *y;
+            let tag = tag_of(y);
+            if !sc.broadcast(cm, "commit", y) {
+                return;
+            }
+            // the subject applies its own commit: directly, or by receiving it back
+            let direct = rng.chance(1, 2);
+            let how = if direct { "apply_pending_commit" } else { "receiving its own commit" };
+            let after = if sc.pc_reloaded.contains(&y) { "reloaded with it" } else { "not reloaded since it was built" };
+            let mm = cm.clone();
+            let (r, _) = if direct { sc.w.with_group(y, |g| g.apply_pending_commit().map(|_| ())) } else { sc.w.with_group(y, |g| g.process_incoming_message(mm).map(|_| ())) };
+            if !r.ok() {
+                sc.fail("C06", format!("{tag}: subject ({after}) cannot apply its own pending commit of epoch {epoch} by {how}: {}", r.s()));
+                return;
+            }
+            if let Some(t) = sc.twin.get_mut(&y) {
+                let mm = cm.clone();
+                let (rt, _) = if direct { guard(|| t.apply_pending_commit().map(|_| ())) } else { guard(|| t.process_incoming_message(mm).map(|_| ())) };
+                if !rt.ok() && !sc.diverged {
+                    sc.diverged = true;
+                    sc.fail("C06", format!("{tag}: the never-reloaded twin cannot apply the pending commit of epoch {epoch} by {how}: {}", rt.s()));
                 }
             }
+            sc.log.entry(y).or_default().push(Logged { msg: cm.clone(), kind: "commit", epoch, ok: true });
+            sc.cover(format!("own-commit-applied:{tag}:{}", if direct { "apply" } else { "received-back" }));
+            if sc.pc_reloaded.contains(&y) {
+                sc.cover("reload:pending-commit:applied-live".into());
+                sc.cover(format!("reload:{tag}:pending-commit:applied-live:{}", if direct { "apply" } else { "received-back" }));
+            }
+        } else {
+            let commit = if committer.is_some() {
+                sc.w.with_group(0, |g| g.commit(vec![]))
+            } else if roll == 0 && q_state == "member" && q_leaf.is_some() {
+                q_state = "removed";
+                let ql = q_leaf.unwrap();
+                sc.w.with_group(0, |g| g.commit_builder().remove_member(ql)?.build())
+            } else if roll == 1 && q_state == "removed" {
+                // somebody else takes the vacated leaf
+                let z = new_client(&mut sc.w, mk, &format!("Z{epoch}"), false, 3);
+                let kp = sc.w.members[z].client.generate_key_package_message(Default::default(), Default::default(), None).unwrap();
+                newcomer_kp = Some(z);
+                q_state = "replaced";
+                sc.w.with_group(0, |g| g.commit_builder().add_member(kp)?.build())
+            } else {
+                sc.w.with_group(0, |g| g.commit(vec![]))
+            };
+            let Some(co) = commit.1 else {
+                sc.fail("C06", format!("commit failed: {}", commit.0.s()));
+                return;
+            };
+            sc.w.with_group(0, |g| g.apply_pending_commit());
+            if !sc.broadcast(&co.commit_message, "commit", 0) {
+                return;
+            }
+            if let Some(z) = newcomer_kp {
+                for wm in &co.welcome_messages {
+                    if let Ok((g, _)) = sc.w.members[z].client.join_group(None, wm, None) {
+                        sc.w.members[z].group = Some(g);
+                        break;
+                    }
+                }
+            }
+            if let Some(y) = committer {
+                // P's competing commit won: the subject's pending commit is gone
+                let tag = tag_of(y);
+                if sc.w.group(y).has_pending_commit() {
+                    sc.fail("C06", format!("{tag}: subject still holds its pending commit of epoch {epoch} after processing the competing commit of P"));
+                }
+                sc.cover(format!("pending-commit:{tag}:superseded{}", if sc.pc_reloaded.contains(&y) { ":after-reload" } else { "" }));
+            }
         }
-        let _ = twin.process_incoming_message(cm.clone());
-        qa_mem.put(&format!("repo.ins {epoch}"), "ok");
-        qa_sql.put(&format!("repo.ins {epoch}"), "ok");
+        sc.pu_reloaded.clear();
+        sc.pc_reloaded.clear();
+        sc.qa_mem.put(&format!("repo.ins {epoch}"), "ok");
+        sc.qa_sql.put(&format!("repo.ins {epoch}"), "ok");
         // Q re-keys (same signature key) or changes its signing identity, by its own commit
-        if q_state == "member" && w.members[3].group.is_some() && rng.chance(1, 6) {
+        if q_state == "member" && sc.w.members[3].group.is_some() && rng.chance(1, 6) {
             let reid = rng.chance(1, 2);
             let (nid, nsk) = make_identity("Q", 1);
-            let (_, qo) = w.with_group(3, |g| {
+            let (_, qo) = sc.w.with_group(3, |g| {
                 let b = g.commit_builder();
                 let b = if reid { b.set_new_signing_identity(nsk, nid) } else { b };
                 b.build()
             });
             if let Some(qo) = qo {
-                let ep2 = w.group(0).current_epoch();
-                w.with_group(3, |g| g.apply_pending_commit());
-                for i in 0..3 {
+                let ep2 = sc.w.group(0).current_epoch();
+                sc.w.with_group(3, |g| g.apply_pending_commit());
+                {
                     let m = qo.commit_message.clone();
-                    w.with_group(i, |g| g.process_incoming_message(m));
+                    sc.w.with_group(0, |g| g.process_incoming_message(m));
                 }
-                for i in 4..w.members.len() {
-                    if w.members[i].group.is_some() {
+                for i in [1usize, 2] {
+                    sc.deliver(i, &qo.commit_message, "commit", false);
+                }
+                for i in 4..sc.w.members.len() {
+                    if sc.w.members[i].group.is_some() {
                         let m = qo.commit_message.clone();
-                        w.with_group(i, |g| g.process_incoming_message(m));
+                        sc.w.with_group(i, |g| g.process_incoming_message(m));
                     }
                 }
-                let _ = twin.process_incoming_message(qo.commit_message.clone());
-                qa_mem.put(&format!("repo.ins {ep2}"), "ok");
-                qa_sql.put(&format!("repo.ins {ep2}"), "ok");
+                sc.qa_mem.put(&format!("repo.ins {ep2}"), "ok");
+                sc.qa_sql.put(&format!("repo.ins {ep2}"), "ok");
                 q_state = if reid { "reidentified" } else { "rekeyed" };
-                out.cover.insert(format!("q:{q_state}"));
+                sc.cover(format!("q:{q_state}"));
             }
         }
         // out of order inside the new epoch: P sends two application messages, the subjects receive only the second one now
         // (the first goes to the pool of late messages), so their ratchets hold a skipped key when they are written / reloaded
         if rng.chance(1, 2) {
-            let ep_now = w.group(0).current_epoch();
-            let (_, m_a) = w.with_group(0, |g| g.encrypt_application_message(b"skipped", vec![]));
-            let (_, m_b) = w.with_group(0, |g| g.encrypt_application_message(b"first-delivered", vec![]));
+            let ep_now = sc.w.group(0).current_epoch();
+            let (_, m_a) = sc.w.with_group(0, |g| g.encrypt_application_message(b"skipped", vec![]));
+            let (_, m_b) = sc.w.with_group(0, |g| g.encrypt_application_message(b"first-delivered", vec![]));
             if let (Some(m_a), Some(m_b)) = (m_a, m_b) {
                 for i in [1usize, 2] {
-                    if w.members[i].group.is_some() {
-                        let mm = m_b.clone();
-                        let (r, _) = w.with_group(i, |g| g.process_incoming_message(mm));
+                    if sc.w.members[i].group.is_some() {
+                        // (the never-reloaded twin of the subject sees the same traffic)
+                        let (r, _) = sc.deliver(i, &m_b, "app", false);
                         if !r.ok() {
-                            out.fails.push(("C05".into(), format!("subject {i} cannot read an application message that overtook another one: {}", r.s())));
+                            sc.out.fails.push(("C05".into(), format!("subject {i} cannot read an application message that overtook another one: {}", r.s())));
                         }
                     }
                 }
-                // the never-reloaded twin of subject 1 sees the same traffic
-                let _ = twin.process_incoming_message(m_b.clone());
                 pool.entry(ep_now).or_default().push(m_a.clone());
                 pool.entry(ep_now).or_default().push(m_a);
-                out.cover.insert("skipped-generation-before-write".into());
+                sc.cover("skipped-generation-before-write".into());
             }
         }
         // the side groups advance and are written; their stored prior epochs are recorded
@@ -250,14 +892,14 @@ fn scenario<C: MlsConfig>(rng: &mut Rng, mk: Mk<C>, out: &mut Out, qa_mem: &mut 
                     qs.put("repo.write", "ok");
                 }
                 if !ok {
-                    out.fails.push(("C06".into(), format!("subject {i}: side group cannot advance / be written")));
+                    sc.out.fails.push(("C06".into(), format!("subject {i}: side group cannot advance / be written")));
                     continue;
                 }
                 let gid = g.group_id().to_vec();
                 let cur = g.current_epoch();
                 let mut m = BTreeMap::new();
                 for e in 0..cur {
-                    if let Ok(Some(rec)) = w.members[i].h.store.epoch(&gid, e) {
+                    if let Ok(Some(rec)) = sc.w.members[i].h.store.epoch(&gid, e) {
                         m.insert(e, rec.to_vec());
                     }
                 }
@@ -266,70 +908,13 @@ fn scenario<C: MlsConfig>(rng: &mut Rng, mk: Mk<C>, out: &mut Out, qa_mem: &mut 
             }
         }
         // ---- persistence events on the two subjects -----------------------------------------------------------------
-        for (i, tag) in [(1usize, "mem"), (2usize, "sql")] {
-            let qa: &mut QA = if i == 1 { &mut *qa_mem } else { &mut *qa_sql };
+        for i in [1usize, 2] {
             let ev = rng.below(10);
             if ev < 3 {
-                // write
-                let (r, _) = w.with_group(i, |g| g.write_to_storage());
-                out.cases += 1;
-                if !r.ok() {
-                    out.fails.push(("C06".into(), format!("{tag}: write_to_storage fails: {}", r.s())));
-                    continue;
-                }
-                written.insert(i, w.components(i));
-                w.members[i].wrote = true;
-                qa.put("repo.write", "ok");
-                qa.put("repo.ids", &list(&stored_ids(&w, i)));
-            } else if ev < 6 && written.contains_key(&i) {
+                sc.persist(i, Ev::Write, "end-of-round");
+            } else if ev < 6 && sc.written.contains_key(&i) {
                 // reload: write first (ev 3,4) or crash (ev 5: drop unwritten state)
-                let crash = ev == 5;
-                if !crash {
-                    let (r, _) = w.with_group(i, |g| g.write_to_storage());
-                    if !r.ok() {
-                        out.fails.push(("C06".into(), format!("{tag}: write before reload fails: {}", r.s())));
-                        continue;
-                    }
-                    written.insert(i, w.components(i));
-                    qa.put("repo.write", "ok");
-                }
-                let gid = w.group(i).group_id().to_vec();
-                match w.members[i].client.load_group(&gid) {
-                    Ok(g) => {
-                        let loaded: Vec<(String, Vec<u8>)> = g.verif_components();
-                        let exp = &written[&i];
-                        let ch: Vec<String> = World::<C>::changed(exp, &loaded)
-                            .into_iter()
-                            .filter(|c| c != "repo_pending_kp_removal" && c != "repo_pending_updates" && c != "repo_pending_inserts")
-                            .collect();
-                        if !ch.is_empty() {
-                            out.fails.push(("C06".into(), format!("{tag}: group loaded after {} differs from the written one in {ch:?}", if crash { "a crash" } else { "a write" })));
-                        }
-                        if crash {
-                            out.crashes += 1;
-                            // the subject lost its unwritten epochs: it has to catch up from the written epoch; replace it
-                            // by the loaded group only if nothing was unwritten, otherwise keep running the live one
-                            let live_epoch = w.group(i).current_epoch();
-                            if g.current_epoch() == live_epoch {
-                                w.members[i].group = Some(g);
-                                qa.put("repo.reload", "ok");
-                            }
-                        } else {
-                            out.reloads += 1;
-                            w.members[i].group = Some(g);
-                            qa.put("repo.reload", "ok");
-                            if i == 1 {
-                                let a = comps_no_repo(w.group(1));
-                                let b = comps_no_repo(&twin);
-                                let ch = World::<C>::changed(&a, &b);
-                                if !ch.is_empty() {
-                                    out.fails.push(("C06".into(), format!("reloaded member and its never-reloaded twin differ in {ch:?}")));
-                                }
-                            }
-                        }
-                    }
-                    Err(e) => out.fails.push(("C06".into(), format!("{tag}: cannot load the written group: {}", err_class(&e)))),
-                }
+                sc.persist(i, if ev == 5 { Ev::Crash } else { Ev::Reload }, "end-of-round");
             }
         }
         // provider level: a write whose epoch part cannot succeed (an insert of an epoch id that is already stored) must not
@@ -337,30 +922,31 @@ fn scenario<C: MlsConfig>(rng: &mut Rng, mk: Mk<C>, out: &mut Out, qa_mem: &mut 
         if rng.chance(1, 3) {
             // (only on the SQLite subject: the in-memory provider has no uniqueness constraint and simply appends)
             for (i, tag) in [(2usize, "sql")] {
-                if w.members[i].group.is_none() || !written.contains_key(&i) || !w.members[i].setup.sqlite {
+                if sc.w.members[i].group.is_none() || !sc.written.contains_key(&i) || !sc.w.members[i].setup.sqlite {
                     continue;
                 }
+                let w = &sc.w;
                 let gid = w.group(i).group_id().to_vec();
-                let ids = stored_ids(&w, i);
+                let ids = stored_ids(w, i);
                 let Some(&dup) = ids.first() else { continue };
                 let before_state = w.members[i].h.store.state(&gid).ok().flatten().map(|z| z.to_vec());
                 let before_epoch = w.members[i].h.store.epoch(&gid, dup).ok().flatten().map(|z| z.to_vec());
                 let mut store = w.members[i].h.store.clone();
                 let poisoned = mls_rs_core::group::GroupState { id: gid.clone(), data: zeroize::Zeroizing::new(b"poisoned-snapshot".to_vec()) };
                 let r = store.write(poisoned, vec![mls_rs_core::group::EpochRecord::new(dup, zeroize::Zeroizing::new(b"poisoned-epoch".to_vec()))], vec![]);
-                out.cases += 1;
+                sc.out.cases += 1;
                 let after_state = w.members[i].h.store.state(&gid).ok().flatten().map(|z| z.to_vec());
                 let after_epoch = w.members[i].h.store.epoch(&gid, dup).ok().flatten().map(|z| z.to_vec());
                 match r {
                     Err(_) => {
                         if after_state != before_state || after_epoch != before_epoch {
-                            out.fails.push(("C06".into(), format!("{tag}: a storage write that failed (duplicate epoch {dup}) still changed the stored {}", if after_state != before_state { "snapshot" } else { "epoch record" })));
+                            sc.out.fails.push(("C06".into(), format!("{tag}: a storage write that failed (duplicate epoch {dup}) still changed the stored {}", if after_state != before_state { "snapshot" } else { "epoch record" })));
                         }
-                        out.cover.insert(format!("failed-write:{tag}:rejected"));
+                        sc.out.cover.insert(format!("failed-write:{tag}:rejected"));
                     }
                     Ok(()) => {
                         // the provider accepted the duplicate: put the genuine records back so that the scenario continues
-                        out.cover.insert(format!("failed-write:{tag}:accepted"));
+                        sc.out.cover.insert(format!("failed-write:{tag}:accepted"));
                         if let (Some(s0), Some(e0)) = (before_state, before_epoch) {
                             let _ = store.write(
                                 mls_rs_core::group::GroupState { id: gid.clone(), data: zeroize::Zeroizing::new(s0) },
@@ -377,37 +963,36 @@ fn scenario<C: MlsConfig>(rng: &mut Rng, mk: Mk<C>, out: &mut Out, qa_mem: &mut 
             if let (Some(g), Some(exp)) = (side.get(&i), side_stored.get(&i)) {
                 let gid = g.group_id().to_vec();
                 for (e, rec) in exp {
-                    let now_rec = w.members[i].h.store.epoch(&gid, *e).ok().flatten().map(|z| z.to_vec());
+                    let now_rec = sc.w.members[i].h.store.epoch(&gid, *e).ok().flatten().map(|z| z.to_vec());
                     if now_rec.as_ref() != Some(rec) {
-                        out.fails.push(("C06".into(), format!("{tag}: writing the main group changed the stored prior epoch {e} of another group in the same storage")));
+                        sc.out.fails.push(("C06".into(), format!("{tag}: writing the main group changed the stored prior epoch {e} of another group in the same storage")));
                         break;
                     }
                 }
-                out.cover.insert(format!("side-group:{tag}:stored={}", exp.len().min(5)));
+                sc.out.cover.insert(format!("side-group:{tag}:stored={}", exp.len().min(5)));
             }
         }
         // which resumption secrets of past epochs the repository resolves (read-only lookup path of its own, `repo.psk` rows):
         // for the own group and, from the side group on the same storage, for the main group as "another group"
         for (i, _tag) in [(1usize, "mem"), (2usize, "sql")] {
-            if w.members[i].group.is_none() {
+            if sc.w.members[i].group.is_none() {
                 continue;
             }
-            let cur = w.group(i).current_epoch();
-            let gid = w.group(i).group_id().to_vec();
+            let cur = sc.w.group(i).current_epoch();
+            let gid = sc.w.group(i).group_id().to_vec();
             for _ in 0..3 {
                 let e = cur.saturating_sub(rng.below(ret as u64 + 3));
                 if e >= cur {
                     continue;
                 }
-                if let Ok(av) = w.group(i).verif_resumption_secret_available(&gid, e) {
-                    let qa: &mut QA = if i == 1 { &mut *qa_mem } else { &mut *qa_sql };
-                    qa.put(&format!("repo.psk {e}"), if av { "some" } else { "none" });
-                    out.cover.insert(format!("psk-lookup:{}", if av { "some" } else { "none" }));
+                if let Ok(av) = sc.w.group(i).verif_resumption_secret_available(&gid, e) {
+                    sc.qa(i).put(&format!("repo.psk {e}"), if av { "some" } else { "none" });
+                    sc.out.cover.insert(format!("psk-lookup:{}", if av { "some" } else { "none" }));
                     // the side group (another group on the same storage) resolves it exactly when the record is STORED
                     if let Some(sg) = side.get(&i) {
-                        let stored = matches!(w.members[i].h.store.epoch(&gid, e), Ok(Some(_)));
+                        let stored = matches!(sc.w.members[i].h.store.epoch(&gid, e), Ok(Some(_)));
                         match sg.verif_resumption_secret_available(&gid, e) {
-                            Ok(x) if x != stored => out.fails.push(("C06".into(), format!("another group on the same storage resolves the resumption secret of epoch {e}: {x}, stored: {stored}"))),
+                            Ok(x) if x != stored => sc.out.fails.push(("C06".into(), format!("another group on the same storage resolves the resumption secret of epoch {e}: {x}, stored: {stored}"))),
                             _ => {}
                         }
                     }
@@ -416,7 +1001,7 @@ fn scenario<C: MlsConfig>(rng: &mut Rng, mk: Mk<C>, out: &mut Out, qa_mem: &mut 
         }
         // both back ends expose the same stored history when written at the same points -- compared through the model rows;
         // ---- late messages of random age to both subjects (fresh message each) ----------------------------------------
-        let now = w.group(0).current_epoch();
+        let now = sc.w.group(0).current_epoch();
         for _ in 0..2 {
             let age = rng.below(ret as u64 + 3);
             if age > now {
@@ -431,79 +1016,131 @@ fn scenario<C: MlsConfig>(rng: &mut Rng, mk: Mk<C>, out: &mut Out, qa_mem: &mut 
             let m2 = msgs.pop().unwrap();
             let mut verdicts = vec![];
             for (i, m) in [(1usize, m1), (2usize, m2)] {
-                if w.members[i].group.is_none() {
+                if sc.w.members[i].group.is_none() {
                     continue;
                 }
-                let m_copy = m.clone();
-                let (r, _) = w.with_group(i, |g| g.process_incoming_message(m));
-                out.lates += 1;
+                // (a message of the current epoch changes the live ratchet: it is part of the traffic proper, the twin must agree)
+                let (r, _) = sc.deliver(i, &m, "app", age > 0);
+                sc.out.lates += 1;
                 let v = match &r {
                     Res::Ok => "some",
                     Res::Err(e) if e == "EpochNotFound" => "none",
                     Res::Err(e) => {
-                        out.fails.push(("C19".into(), format!("late message of age {age} (ret {ret}): unexpected error {e}")));
+                        sc.out.fails.push(("C19".into(), format!("late message of age {age} (ret {ret}): unexpected error {e}")));
                         "none"
                     }
                     Res::Panic(p) => {
-                        out.fails.push(("C19".into(), format!("panic on late message: {p}")));
+                        sc.out.fails.push(("C19".into(), format!("panic on late message: {p}")));
                         "none"
                     }
                 };
                 if age > 0 {
-                    let qa: &mut QA = if i == 1 { &mut *qa_mem } else { &mut *qa_sql };
-                    qa.put(&format!("repo.get {e}"), v);
+                    sc.qa(i).put(&format!("repo.get {e}"), v);
                 }
                 verdicts.push(v);
-                out.cover.insert(format!("late:age={}:{}", age.min(6), v));
+                sc.out.cover.insert(format!("late:age={}:{}", age.min(6), v));
                 if v == "some" {
-                    accepted_lates.push((i, m_copy, e));
+                    sc.accepted_lates.push((i, m, e, true));
                 }
             }
             // C05: a late message that was accepted is never accepted again, whatever other epochs were touched in between
             // (the ratchet state of a prior epoch loaded from storage must stay the one that consumed the key)
-            if !accepted_lates.is_empty() {
-                let k = rng.below(accepted_lates.len() as u64) as usize;
-                let (i, m, e) = accepted_lates[k].clone();
-                if w.members[i].group.is_some() {
-                    let (r, _) = w.with_group(i, |g| g.process_incoming_message(m));
-                    out.lates += 1;
+            if !sc.accepted_lates.is_empty() {
+                let k = rng.below(sc.accepted_lates.len() as u64) as usize;
+                let (i, m, e, _) = sc.accepted_lates[k].clone();
+                if sc.w.members[i].group.is_some() {
+                    let (r, _) = sc.deliver(i, &m, "app", true);
+                    sc.out.lates += 1;
                     if r.ok() {
-                        out.fails.push(("C05".into(), format!("subject {i} accepted the late application message of epoch {e} a second time (now at epoch {now})")));
+                        sc.out.fails.push(("C05".into(), format!("subject {i} accepted the late application message of epoch {e} a second time (now at epoch {now})")));
                     }
-                    out.cover.insert(format!("late-replay:{}", if r.ok() { "accepted" } else { "rejected" }));
+                    sc.out.cover.insert(format!("late-replay:{}", if r.ok() { "accepted" } else { "rejected" }));
                 }
             }
-            // the twin (never written, never reloaded) keeps every epoch it entered: no oracle on it here
         }
-        // ---- Q's old messages after its leaf changed -------------------------------------------------------------------
+        // ---- Q's old messages after its leaf changed: to P, and to both subjects as they are now (written / reloaded / restored),
+        // on clones so that neither their state nor the model rows are touched ----------------------------------------------
         if !q_pool.is_empty() && rng.chance(1, 2) {
             let k = rng.below(q_pool.len() as u64) as usize;
             let (qe, qm) = q_pool.remove(k);
-            let now = w.group(0).current_epoch();
+            let now = sc.w.group(0).current_epoch();
             if qe < now {
-                let (r, o) = w.with_group(0, |g| g.process_incoming_message(qm));
-                out.lates += 1;
+                for i in [1usize, 2] {
+                    if sc.w.members[i].group.is_none() {
+                        continue;
+                    }
+                    let tag = tag_of(i);
+                    let avail = retained(&sc.w, i, qe);
+                    let hist = if sc.reloaded.contains(&i) {
+                        "reloaded"
+                    } else if sc.written.contains_key(&i) {
+                        "written"
+                    } else {
+                        "never written"
+                    };
+                    let mut c = sc.w.group(i).clone();
+                    let at = c.current_epoch();
+                    let mm = qm.clone();
+                    let (r, o) = guard(|| c.process_incoming_message(mm));
+                    sc.out.lates += 1;
+                    let what = format!("late message of Q (epoch {qe}) delivered to the {tag} subject ({hist}, epoch {at}, epoch {qe} {})", if avail { "retained" } else { "not retained" });
+                    match q_state {
+                        "removed" | "replaced" | "reidentified" => {
+                            if r.ok() {
+                                sc.fail("C19", format!("{what} accepted although Q's leaf is now {q_state}: {:?}", o.as_ref().map(received_summary)));
+                            }
+                            sc.cover(format!("late-sender:{tag}:{q_state}:{}", if r.ok() { "accepted" } else if avail { "rejected" } else { "not-retained" }));
+                        }
+                        _ => {
+                            // member / rekeyed with the same signature key: accepted exactly while THIS subject retains the epoch
+                            match (&r, avail) {
+                                (Res::Ok, true) => match &o {
+                                    Some(ReceivedMessage::ApplicationMessage(a)) => {
+                                        if Some(a.sender_index) != q_leaf {
+                                            sc.fail("C19", format!("{what} attributed to leaf {} instead of Q's leaf {q_leaf:?}", a.sender_index));
+                                        }
+                                    }
+                                    other => sc.fail("C19", format!("{what} is not reported as an application message: {:?}", other.as_ref().map(received_summary))),
+                                },
+                                (Res::Ok, false) => sc.fail("C19", format!("{what} accepted")),
+                                (Res::Err(e), false) if e == "EpochNotFound" => {}
+                                (x, _) => sc.fail("C19", format!("{what}, Q's leaf unchanged ({q_state}): {}", x.s())),
+                            }
+                            sc.cover(format!("late-sender:{tag}:{q_state}:{}", if r.ok() { "accepted" } else if avail { "rejected" } else { "not-retained" }));
+                        }
+                    }
+                    if hist == "reloaded" {
+                        sc.cover(format!("late-sender:{tag}:after-reload"));
+                    }
+                }
+                let (r, o) = sc.w.with_group(0, |g| g.process_incoming_message(qm));
+                sc.out.lates += 1;
                 let accepted = r.ok();
                 match q_state {
                     "removed" | "replaced" | "reidentified" => {
                         if accepted {
-                            out.fails.push(("C19".into(), format!("late message of Q (epoch {qe}) accepted at epoch {now} although Q's leaf is now {q_state}: {:?}", o.map(|x| received_summary(&x)))));
+                            sc.out.fails.push(("C19".into(), format!("late message of Q (epoch {qe}) accepted at epoch {now} although Q's leaf is now {q_state}: {:?}", o.map(|x| received_summary(&x)))));
                         }
-                        out.cover.insert(format!("late-sender:{q_state}:{}", if accepted { "accepted" } else { "rejected" }));
+                        sc.out.cover.insert(format!("late-sender:{q_state}:{}", if accepted { "accepted" } else { "rejected" }));
                     }
                     _ => {
                         // member / rekeyed with the same signature key: accepted while retained (P retains 3)
                         if let Some(ReceivedMessage::ApplicationMessage(a)) = o {
                             if Some(a.sender_index) != q_leaf {
-                                out.fails.push(("C19".into(), "late message attributed to another member".into()));
+                                sc.out.fails.push(("C19".into(), "late message attributed to another member".into()));
                             }
                         }
-                        out.cover.insert(format!("late-sender:{q_state}:{}", if accepted { "accepted" } else { "rejected" }));
+                        sc.out.cover.insert(format!("late-sender:{q_state}:{}", if accepted { "accepted" } else { "rejected" }));
                     }
                 }
             }
         }
+        // ---- both subjects are in lockstep with their never-reloaded twins at the end of every round ----------------------
+        for i in [1usize, 2] {
+            sc.lockstep(i, "at the end of the round");
+        }
     }
+    let Sc { mut w, out, qa_mem, qa_sql, .. } = sc;
     // ---- re-join on a storage that still holds prior epochs of the earlier membership ----------------------------------------
     // the repository only accepts a prior epoch whose id continues the stored ones (`insert`): after P removed a subject and
     // added it again, the first commit the new group object processes inserts the epoch it joined at (known finding F14 when
@@ -607,6 +1244,6 @@ pub fn run(o: &Opts) -> i32 {
     let stem = "c06all";
     std::fs::write(format!("{dir}/{stem}.failures"), rel.iter().map(|(p, w)| format!("{p}: {w}")).collect::<Vec<_>>().join("\n")).unwrap();
     std::fs::write(format!("{dir}/{stem}.samples"), out.samples.join("\n")).unwrap();
-    let _ = std::fs::remove_dir_all("/tmp/vharness-scratch-c06");
+    let _ = std::fs::remove_dir_all(scratch_dir());
     0
 }
